@@ -281,8 +281,9 @@ pub fn gen_migrate_msg(r: &mut Rng, pool: &[String]) -> Value {
     }
     for side in ["ask", "bid"] {
         if r.chance(30) {
-            let (rate, acct): (Option<&str>, Option<String>) = match r.below(7) {
+            let (rate, acct): (Option<&str>, Option<String>) = match r.below(8) {
                 0 => (Some(""), Some(String::new())),
+                7 => (Some("0.020000000000000000000000000000"), Some(r.pick(pool).clone())),
                 1 => (Some("0.02"), Some(r.pick(pool).clone())),
                 2 => (Some("0.02"), None),
                 3 => (None, Some(r.pick(pool).clone())),
